@@ -62,6 +62,15 @@ Example C13_nonvacuous :
   digits 128 = [0; 1; 0; 0; 0; 0; 0; 0; 0]%Z /\ zweighted (digits 123456789012345) = 123456789012345%Z.
 Proof. vm_compute. auto. Qed.
 
+(** why the 128 published digit signatures must be made with independent bases: two signatures sharing a base h on
+    different messages yield, by interpolation, a valid signature on EVERY message (e.g. on 128, or on -1) - "only the 128
+    published digit signatures exist" would be false. The generation check of C19 / C13 watches that the bases differ. *)
+Theorem C13_shared_base_signatures_forge : forall (K : Fld) (sk : skey K) (pk : pkey K) (h m0 m1 m : K),
+  key_ok K sk pk -> h <> f0 -> m1 - m0 <> f0 -> length (sk_ys sk) = 1%nat ->
+  let s0 := sign sk h [m0] in let s1 := sign sk h [m1] in
+  verify pk [m] (h, snd s0 + (m - m0) / (m1 - m0) * (snd s1 - snd s0)) = true.
+Proof. exact shared_base_signatures_forge. Qed.
+
 Print Assumptions C13_prover_refuses_negative.
 Print Assumptions C13_prover_accepts_nonnegative.
 Print Assumptions C13_digits_spec.
@@ -73,3 +82,4 @@ Print Assumptions C13_wrong_link_rejected.
 Print Assumptions C13_range_special_soundness.
 Print Assumptions C13_validate_iff.
 Print Assumptions C13_nonvacuous.
+Print Assumptions C13_shared_base_signatures_forge.
